@@ -1,6 +1,8 @@
 package main
 
 import (
+	"io"
+	"log/slog"
 	"os"
 	"strconv"
 )
@@ -13,3 +15,5 @@ func vkEnvInt(name string, def int) int {
 	}
 	return def
 }
+
+func quietLogger() *slog.Logger { return slog.New(slog.NewTextHandler(io.Discard, &slog.HandlerOptions{Level: slog.LevelError + 100})) }
